@@ -21,7 +21,11 @@ def falsify(ctx, case: Dict) -> bool:
             inc = X.build(spec, X.mk_rows(init), cfg)
             if case.get("precalc"):
                 inc.calculate()
-            for ch in chunks:
+            for j, ch in enumerate(chunks):
+                if case.get("rewrap") is not None and j == case["rewrap"]:
+                    # a pre-loaded indicator: a fresh object of the same configuration takes over the
+                    # candles calculated so far (readings and helper series are on them) and carries on
+                    inc = X.build(spec, inc.candles, cfg)
                 inc.append(X.mk_rows(ch))
             if not chunks:
                 inc.calculate()
@@ -45,7 +49,9 @@ def falsify(ctx, case: Dict) -> bool:
         sig = {"kind": spec["kind"], **bad, "cfg": cfg_key(cfg)}
         if spec["kind"] == "AMORPH":
             sig["function"] = spec["analysis"]["f"]
-        ctx.fail(sig, f"{spec} cfg={cfg} n={len(rows)} init={len(init)} chunks={[len(c) for c in chunks][:12]}: {bad}",
+        if case.get("rewrap") is not None:
+            sig["rewrapped"] = True
+        ctx.fail(sig, f"{spec} cfg={cfg} n={len(rows)} init={len(init)} chunks={[len(c) for c in chunks][:12]} rewrap={case.get('rewrap')}: {bad}",
                  {"case": case}, size=len(rows))
         return True
     return False
@@ -62,6 +68,8 @@ def run(ctx: core.Ctx) -> int:
     for _ in range(ctx.n(330, 4000)):
         c = E.gen_case(rng, ctx, X.KINDS + ["AMORPH"] * 3)
         c["precalc"] = rng.random() < 0.4
+        if not c["cfg"] and len(c["chunks"]) >= 2 and rng.random() < 0.3:
+            c["rewrap"] = rng.randrange(1, len(c["chunks"]))
         cases.append(c)
     for _ in range(ctx.n(40, 400)):
         c = E.gen_pattern_tf_case(rng, ctx)
@@ -78,6 +86,8 @@ def run(ctx: core.Ctx) -> int:
             corr.add(c["spec"], c["cfg"], c["rows"], [("calculate",)], rng, c.get("meta"))
         if "meta" in c:
             E.record_distribution(ctx, dist, c)
+        if c.get("rewrap") is not None:
+            dist["rewrapped"] = dist.get("rewrapped", 0) + 1
         ctx.seen({"spec": c["spec"], "cfg": c["cfg"], "rows": c["rows"], "init": len(c["init"])},
                  len(c["rows"]) >= 4 and len(c["chunks"]) >= 1)
         if len(ctx.samples) < 3 and len(c["rows"]) > 6:
